@@ -15,12 +15,25 @@ RULE = ("seeded random task lists per entry point (averaging / exact / split / n
         "qubits (stub runner); basis states through CNOT/SWAP/CZ and exact values of entangled / rotated states "
         "(oracle only); parameter-scan pipelines bind -> estimate -> exact on one simulator (oracle only); sessions of "
         "2-4 calls on the same simulator and objects differing in one component; calls repeated after the caller "
-        "overwrote the first results; plus a malformed stream (None / negative shots, non-Ising measured operator, "
+        "overwrote the first results; HISTORIES on ONE runner object (SymbolicSimulator, a numpy-backed subclass of "
+        "BaseWavefunctionSimulator, a BaseCircuitRunner subclass) and one pool of task / circuit / operator objects: "
+        "estimation calls (averaging, exact, split, non-measured, bind, the bind -> estimate -> exact pipeline, the "
+        "simulator's own get_exact_expectation_values) interleaved with every OTHER public route of that object "
+        "(get_wavefunction without / with |0..0> written out / another basis state / the uniform superposition as "
+        "initial state, positional or by keyword; run_and_measure; run_batch_and_measure with a scalar / list / tuple, "
+        "also exactly the submission the estimation makes; get_measurement_outcome_distribution sampled and exact; the "
+        "counters) on the same and on equal-but-distinct circuit objects, the caller editing what it got back "
+        "(Wavefunction by item assignment, Measurements.bitstrings / add_counts, distribution_dict, the returned "
+        "lists, its own initial-state array and shot list, the ExpectationValues of earlier answers), editing an "
+        "operator's coefficient or a circuit's operation list in place, or replacing a task by a sibling - one "
+        "systematic minimal history per (runner, route variant, estimation entry point) plus random ones of 2-15 "
+        "steps; every estimation answer is judged on the task's content at that moment; plus a malformed stream (None / negative shots, non-Ising measured operator, "
         "operator wider than the circuit, unbound symbols); non-trivial: an averaging or split list containing all "
         "three task kinds (or >=3 tasks with shared objects / a wide register), an exact list with >=2 tasks one of "
         "which has an X/Y term, a bind or pipeline list with >=2 tasks and pairwise different maps (or a single "
         "broadcast map), a nonmeasured list with both a constant and a zero-shot task, a session of >=2 calls one of "
-        "them on >=2 tasks; distinct = distinct canonical JSON of the case")
+        "them on >=2 tasks, a history in which an estimation call on >=1 task follows another route of the runner or an "
+        "in-place edit; distinct = distinct canonical JSON of the case")
 TRUSTED = [
     "the circuit runner returns one Measurements object per submitted circuit, in order (CircuitRunner protocol): "
     "hypothesis `hlaw` of result_at_index / measured_value_weighted, field RunnerLaw.onePer",
@@ -35,6 +48,11 @@ TRUSTED = [
     "substitution into linear gate parameters",
     "float arithmetic is exact on the dyadic coefficients used with basis states (all sums stay below 50 significant "
     "bits); sampled means are compared at 1e-9",
+    "histories: what the runner's OTHER routes (get_wavefunction, run_and_measure, run_batch_and_measure, "
+    "get_measurement_outcome_distribution, counters) return or raise is not judged here (C04 / C12 / C14); only the "
+    "estimation calls and the simulator's own get_exact_expectation_values are.  The model answers every estimation "
+    "call of a history from the task descriptions of that step alone (it has no runner state to remember), so a "
+    "disagreement there is exactly a dependence of the implementation on the history",
     "oracle-only case kinds (no model answer): circuits with CNOT/CZ/SWAP or numeric rotations, and the pipeline "
     "bind -> estimate -> exact with rotations by integer multiples of pi (the wrong outcome has probability < 1e-30 "
     "and is taken never to be sampled)",
@@ -44,6 +62,12 @@ ASSUMPTIONS = [
     "so 'coefficient times eigenvalue' is stated for real coefficients and 'Re(coefficient) times eigenvalue' in general",
     "only ExpectationValues.values are modelled (correlations / covariances are C10)",
     "circuits have at least one qubit",
+    "histories: the caller edits task objects in place only through public attributes and only in ways that keep the "
+    "task well-formed and of the same kind: `term.coefficient = <real number>` on a term of the task's operator, "
+    "`circuit.operations.append(X|Y|Z on an existing qubit)` / `.pop()` (the declared width is explicit and stays); "
+    "if such an edit does not take (the attribute hands out a copy) nothing after it is judged.  Objects the caller "
+    "got back from the runner's other routes are edited freely (they are the caller's); initial states handed to "
+    "get_wavefunction are normalised basis states or the uniform superposition of the circuit's width",
 ]
 
 TOL = Fraction(1, 10 ** 9)
@@ -151,7 +175,7 @@ class _Pool:
 
     def op(self, t):
         if self.share in ("ops", "both", "tasks"):
-            key = common.canon([t["op"], bool(t.get("term")), t.get("num", "py"), t.get("build")])
+            key = _op_key(t)
             if key not in self.ops:
                 self.ops[key] = _build_op(t)
             return self.ops[key]
@@ -170,6 +194,17 @@ class _Pool:
             obj = EstimationTask(self.op(t), self.circuit(t["circuit"]), _shots(t))
         self.by_id[id(t)] = (t, obj)  # keeps t alive, so the id stays unique
         return obj
+
+    def rekey(self, table, old_key, new_key):
+        """the pooled object described by old_key was edited IN PLACE by the caller and now has the content new_key:
+        it stays the one object of every task that held it; EstimationTask objects are rebuilt around it"""
+        table[new_key] = table.pop(old_key)
+        self.tasks.clear()
+        self.by_id.clear()
+
+
+def _op_key(t):
+    return common.canon([t["op"], bool(t.get("term")), t.get("num", "py"), t.get("build")])
 
 
 def _build_task(t, circuits=None):
@@ -264,6 +299,13 @@ class _Recorder:
 
     def reset(self):
         self.recorded, self.requests, self.runs = [], None, []
+
+    def __getattr__(self, name):
+        # whatever else the runner offers (get_wavefunction, get_exact_expectation_values, counters, attributes) is the
+        # runner's own: estimation code that looks for it finds it
+        if name in ("inner", "recorded", "requests", "runs") or name.startswith("__"):
+            raise AttributeError(name)
+        return getattr(self.inner, name)
 
     @staticmethod
     def _bits(m):
@@ -519,6 +561,29 @@ def corpus():
             {"op": [_term(2, [(8, "Z"), (1, "Z")]), _term(3, [(9, "Z")])], "build": "iter",
              "circuit": _circ(10, [["RX", 1, {"const": 0, "terms": [["a", 1]]}], ["RY", 8, {"const": 1, "terms": [["b", 1]]}]]), "shots": 2}] * 2,
          "maps": [[["a", 1], ["b", 0]], [["a", 0], ["b", 0]]]},
+        # --- histories on ONE runner object: another public route between two estimation calls
+        # get_wavefunction from |10> on the circuit object whose exact value is asked for next (2*Z0 on X(0)|00> is -2)
+        {"kind": "history", "seed": 17, "share": "both", "steps": [
+            {"kind": "route", "route": "wf_init", "init": {"kind": "basis", "k": 1}, "tasks": [dict(meas, circuit=_circ(2, [["X", 0]]), op=[_term(2, [(0, "Z")])])]},
+            {"kind": "exact", "tasks": [dict(meas, circuit=_circ(2, [["X", 0]]), op=[_term(2, [(0, "Z")])])]},
+            {"kind": "route", "route": "wf", "edit": "reverse", "tasks": [dict(meas, circuit=_circ(2, [["X", 0]]), op=[_term(2, [(0, "Z")])])]},
+            {"kind": "route", "route": "exact_direct", "tasks": [dict(meas, circuit=_circ(2, [["X", 0]]), op=[_term(2, [(0, "Z")])])]},
+            {"kind": "averaging", "tasks": [dict(meas, circuit=_circ(2, [["X", 0]]), op=[_term(2, [(0, "Z")])])]}]},
+        # the caller runs the task's circuit itself with the task's shot count, flips every bit of what it got, estimates
+        {"kind": "history", "seed": 18, "share": "tasks", "runner": "stub", "steps": [
+            {"kind": "averaging", "tasks": [meas]},
+            {"kind": "route", "route": "run", "n": 5, "edit": "flip", "tasks": [meas]},
+            {"kind": "route", "route": "batch", "ns": [5], "as_tuple": True, "edit": "flip", "tasks": [meas]},
+            {"kind": "averaging", "again": True, "tasks": [meas]}]},
+        # exact value, then the circuit object gets one more gate in place (circuit.operations.append), exact again
+        {"kind": "history", "seed": 19, "share": "both", "sim": "numpy", "steps": [
+            {"kind": "exact", "tasks": [meas]},
+            {"kind": "route", "route": "run", "n": 5, "tasks": [meas]},
+            {"kind": "mutate", "what": "gate", "gate": ["X", 1], "tasks": [meas]},
+            {"kind": "exact", "tasks": [dict(meas, circuit=_circ(3, [["X", 0], ["X", 2], ["X", 1]]))]},
+            {"kind": "mutate", "what": "coef", "j": 0, "c": [5, 0], "tasks": [dict(meas, circuit=_circ(3, [["X", 0], ["X", 2], ["X", 1]]))]},
+            {"kind": "averaging", "tasks": [dict(meas, circuit=_circ(3, [["X", 0], ["X", 2], ["X", 1]]),
+                                                 op=[_term(5, [(0, "Z")])] + meas["op"][1:])]}]},
         # widths 9..12 and >= 64 (stub runner): mirrored supports
         {"kind": "averaging", "seed": 0, "runner": "stub", "tasks": [
             {"op": [_term(2, [(1, "Z")]), _term(3, [(8, "Z")]), _term(5, [(0, "Z"), (9, "Z")])], "circuit": _circ(10, [["X", 1], ["X", 9]]), "shots": 2},
@@ -574,7 +639,7 @@ def _exact_in_doubles(t):
 
 
 def _case_exact_in_doubles(c):
-    subs = c["steps"] if c["kind"] == "session" else [c]
+    subs = c["steps"] if c["kind"] in ("session", "history") else [c]
     return all(_exact_in_doubles(t) for sub in subs for t in sub["tasks"])
 
 
@@ -1136,6 +1201,254 @@ def _session_case(rng, nmax):
             "share": rng.choice(["both", "both", "tasks", "circuits", "ops"])}
 
 
+_ROUTE_WEIGHTS = ("wf_init", "wf_init", "wf_init", "wf", "wf", "wf0", "run", "run", "batch", "batch", "dist", "dist", "dist_exact",
+                  "dist_exact", "exact_direct", "exact_direct", "counters")
+
+# every other public route of a simulator / of a plain runner, with what the caller does to the result afterwards
+_ROUTE_VARIANTS_SIM = (
+    [{"route": "wf", "edit": e, "fresh": f} for e in (None, "reverse", "roll") for f in (False, True)]
+    + [{"route": "wf0", "init": {"kind": "zero"}, "edit": e} for e in (None, "reverse")]
+    + [{"route": "wf_init", "init": i, "edit": e, "fresh": f}
+       for i, e in (({"kind": "basis"}, None), ({"kind": "basis"}, "reverse"), ({"kind": "uniform"}, None), ({"kind": "basis", "complex": True}, "roll"))
+       for f in (False, True)]
+    + [{"route": "run", "edit": e} for e in (None, "flip", "clear", "add")] + [{"route": "run", "edit": "flip", "fresh": True}]
+    + [{"route": "batch", "edit": e, "as_estimation": True} for e in (None, "flip", "clear")] + [{"route": "batch", "scalar": True, "edit": "flip"}]
+    + [{"route": "dist", "edit": e} for e in (None, "flip")]
+    + [{"route": "dist_exact", "edit": e} for e in (None, "flip")]
+    + [{"route": "exact_direct"}, {"route": "counters"}])
+
+
+def _rand_route(rng, cur, idxs, stub):
+    """one call of ANOTHER public route of the runner object on the circuits (operators) of cur[idxs]"""
+    route = rng.choice(ROUTES_RUNNER[:3] * 3 + ROUTES_RUNNER[3:] if stub else _ROUTE_WEIGHTS)
+    if route == "batch" and rng.random() < 0.3:
+        idxs = list(range(len(cur)))
+    st = {"kind": "route", "route": route, "tasks": [cur[i] for i in idxs], "n": rng.randrange(1, 6)}
+    shots = [t["shots"] for t in st["tasks"] if isinstance(t["shots"], int) and t["shots"] > 0]
+    if shots and rng.random() < 0.5:
+        st["n"] = shots[0]  # the shot count the estimation will ask for
+    meas = [t for t in cur if _kind(t) == "meas"]
+    if route == "batch" and meas and rng.random() < 0.45:
+        # exactly the submission an estimation of the working set makes: the measured tasks' circuits and shot counts
+        st["tasks"], st["ns"] = meas, [t["shots"] for t in meas]
+    if route == "wf0":
+        st["init"] = {"kind": "zero", "complex": rng.random() < 0.5}
+    elif route == "wf_init":
+        st["init"] = {"kind": "basis", "k": rng.randrange(64)} if rng.random() < 0.75 else {"kind": "uniform"}
+        st["init"]["complex"] = rng.random() < 0.5
+    if route in ("wf0", "wf_init") and rng.random() < 0.3:
+        st["positional"] = True
+    if route in ("wf", "wf0", "wf_init"):
+        st["edit"] = rng.choice([None, None, "reverse", "roll"])
+    elif route in ("run", "batch"):
+        st["edit"] = rng.choice([None, "flip", "flip", "clear", "add"])
+        if route == "batch" and rng.random() < 0.4 and "ns" not in st:
+            st["scalar"] = True
+        if route == "batch" and rng.random() < 0.4:
+            st["as_tuple"] = True
+    elif route in ("dist", "dist_exact"):
+        st["edit"] = rng.choice([None, "flip", "clear"])
+    if rng.random() < 0.2:
+        st["fresh"] = True  # on equal-but-distinct circuit objects
+    if rng.random() < 0.3:
+        st["drop"] = True  # the caller does not keep what it got back
+    return {k: v for k, v in st.items() if v is not None}
+
+
+def _rand_mutation(rng, cur, i, p_coef=0.5):
+    """an in-place edit of the operator / circuit OBJECT of task cur[i]: returns (step, new working set) – every task
+    holding that object (= every task with the same description of it: the pool builds equal descriptions as one
+    object) now has the new content – or None"""
+    import copy
+    t = cur[i]
+    if t["op"] and rng.random() < p_coef:
+        j = rng.randrange(len(t["op"]))
+        c = [rat(_rand_coeff(rng, False)[0]), 0]
+        if c == list(t["op"][j]["c"]):
+            return None
+        key, new = _op_key(t), []
+        for u in cur:
+            if _op_key(u) == key:
+                u = copy.deepcopy(u)
+                u["op"][j]["c"] = list(c)
+            new.append(u)
+        step = {"kind": "mutate", "what": "coef", "tasks": [t], "j": j, "c": c}
+    else:
+        gates = t["circuit"]["gates"]
+        gate = None if gates and rng.random() < 0.3 else [rng.choice(["X", "X", "Y", "Z"]), rng.randrange(t["circuit"]["n"])]
+        key, new = common.canon(t["circuit"]), []
+        for u in cur:
+            if common.canon(u["circuit"]) == key:
+                u = copy.deepcopy(u)
+                if gate is None:
+                    u["circuit"]["gates"].pop()
+                else:
+                    u["circuit"]["gates"].append(list(gate))
+            new.append(u)
+        step = {"kind": "mutate", "what": "gate", "tasks": [t], "gate": gate}
+    if not all(_exact_in_doubles(u) for u in new):
+        return None
+    return step, new
+
+
+def _targeted_histories(rng, nmax):
+    """the systematic part: for each runner object (SymbolicSimulator, the numpy-backed BaseWavefunctionSimulator
+    subclass, the stub BaseCircuitRunner subclass), EVERY other public route in every variant of _ROUTE_VARIANTS_SIM
+    and every estimation entry point that uses the runner, one minimal history
+        [estimation]  ->  the other route on the first task's circuit  ->  [in-place edit]  ->  estimation
+    on one or two sibling tasks whose circuits prepare basis states"""
+    import copy
+    import json
+    out = []
+    for runner in ("symbolic", "numpy", "stub"):
+        for var in _ROUTE_VARIANTS_SIM:
+            if runner == "stub" and var["route"] not in ROUTES_RUNNER:
+                continue
+            for est in (("averaging",) if runner == "stub" else ("averaging", "exact")):
+                n = rng.randrange(2, nmax + 1)
+                base = _rand_task(rng, "meas", n)
+                base["circuit"] = _rand_circuit(rng, base["circuit"]["n"], basis=True)
+                base["shots"] = rng.choice([1, 1, 2, 3])
+                cur = [base] + [_sibling(rng, base, nmax) for _ in range(rng.randrange(0, 2))]
+                cur = [copy.deepcopy(t) for t in cur if _kind(t) == "meas"]
+                if runner == "stub":
+                    for t in cur:
+                        t["circuit"]["gates"] = [g for g in t["circuit"]["gates"] if g[0] in ("X", "Y", "Z")]
+                steps = []
+                if rng.random() < 0.35:
+                    steps.append({"kind": rng.choice(["averaging", est]), "tasks": list(cur)})
+                st = dict({"kind": "route", "tasks": [cur[0]], "n": cur[0]["shots"]}, **copy.deepcopy(var))
+                if st.get("init", {}).get("kind") == "basis":
+                    st["init"]["k"] = rng.randrange(64)
+                if st.pop("as_estimation", None):
+                    st["tasks"], st["ns"] = list(cur), [t["shots"] for t in cur]
+                    if rng.random() < 0.5:
+                        st["as_tuple"] = True
+                steps.append({k: v for k, v in st.items() if v not in (None, False)})
+                if rng.random() < 0.5:
+                    for _ in range(4):
+                        mut = _rand_mutation(rng, cur, 0, p_coef=0.3)
+                        if mut is not None:
+                            steps.append(mut[0])
+                            cur = mut[1]
+                            break
+                last = {"kind": est, "tasks": list(cur)}
+                if est == "exact" and rng.random() < 0.3:
+                    last = {"kind": "route", "route": "exact_direct", "tasks": list(cur)}
+                elif rng.random() < 0.2:
+                    last["again"] = True
+                steps.append(last)
+                case = {"kind": "history", "seed": rng.randrange(2 ** 31), "steps": steps, "share": rng.choice(["both", "tasks"]),
+                        "targeted": True}
+                if runner == "numpy":
+                    case["sim"] = "numpy"
+                if runner == "stub":
+                    case["runner"] = "stub"
+                out.append(json.loads(json.dumps(case)))
+    return out
+
+
+def _history_case(rng, nmax):
+    """a history on ONE simulator (SymbolicSimulator / a numpy-backed subclass of BaseWavefunctionSimulator) or ONE
+    runner (a BaseCircuitRunner subclass) and one pool of circuit / operator objects: estimation calls (averaging,
+    exact, split, non-measured, bind, the bind -> estimate -> exact pipeline) interleaved with every OTHER public
+    route of that object (get_wavefunction without / with an explicit |0..0> / another basis state / a superposition
+    as initial state, run_and_measure, run_batch_and_measure, get_measurement_outcome_distribution sampled / exact,
+    get_exact_expectation_values directly, the counters) on the SAME and on equal-but-distinct circuit objects,
+    whose results (Wavefunction, Measurements, distribution, lists, the initial-state array, ExpectationValues) the
+    caller edits in place; in-place edits of an operator's coefficient / a circuit's operation list; replacement of
+    a task by a sibling.  Every estimation answer is judged against the task's content at that moment."""
+    import copy
+    import json
+    runner = rng.choice(["symbolic", "symbolic", "symbolic", "numpy", "numpy", "stub"])
+    stub = runner == "stub"
+    ising = stub or rng.random() < 0.7
+    cur, _ = _sibling_tasks(rng, nmax, ising=ising, kmax=4)
+    cur = [copy.deepcopy(t) for t in cur]
+    if stub:  # the stub runner executes X / Y / Z circuits
+        for t in cur:
+            t["circuit"]["gates"] = [g for g in t["circuit"]["gates"] if g[0] in ("X", "Y", "Z")]
+    pi = ising and not stub and rng.random() < 0.2
+    if not ising:
+        est = ["exact", "exact", "exact", "exact_direct"]
+    elif stub:
+        est = ["averaging", "averaging", "averaging", "split", "nonmeasured"]
+    else:
+        est = ["averaging", "averaging", "averaging", "exact", "exact", "exact", "exact_direct", "split", "nonmeasured",
+               "bind"] + ["pipeline"] * (4 if pi else 0)
+    steps = []
+
+    def estimation(focus):
+        kind = rng.choice(est)
+        tasks = list(cur)
+        r = rng.random()
+        if focus is not None and r < 0.6:
+            tasks = [cur[i] for i in focus]
+        elif r < 0.75 and len(tasks) >= 2:
+            i, j = rng.sample(range(len(tasks)), 2)
+            tasks[i], tasks[j] = tasks[j], tasks[i]
+        if kind == "nonmeasured":
+            tasks = [t for t in tasks if _kind(t) in ("const", "zero")]
+        if kind == "exact_direct":
+            return dict({"kind": "route", "route": "exact_direct", "tasks": tasks}, **({"kw": True} if rng.random() < 0.3 else {}))
+        if kind == "pipeline":
+            pc = _pipeline_case(rng, nmax)
+            return {"kind": "pipeline", "tasks": pc["tasks"], "maps": pc["maps"], "pi": True}
+        st = {"kind": kind, "tasks": tasks}
+        if kind == "bind":
+            if pi or rng.random() < 0.5:  # the working set itself (circuits without symbols: binding changes nothing)
+                k = 1 if rng.random() < 0.3 else len(tasks)
+                st["maps"] = [[[s2, rat(Fraction(rng.randrange(-8, 9), 4))] for s2 in rng.sample(["a", "b", "c"], rng.randrange(0, 3))]
+                              for _ in range(k)]
+            else:
+                bc = _rand_bind_case(rng, nmax)
+                st = {k: v for k, v in bc.items() if k in ("kind", "tasks", "maps", "mapnum")}
+        r = rng.random()
+        if r < 0.25:
+            st["again"] = True
+        elif r < 0.5 and kind in ("averaging", "exact", "nonmeasured"):
+            st["scribble"] = True  # the caller overwrites the arrays of the answer and empties the list, then goes on
+        if rng.random() < 0.15 and kind != "bind":
+            st["fresh"] = True  # the call is made on equal-but-distinct task / circuit / operator objects
+        return st
+
+    if rng.random() < 0.5:
+        steps.append(estimation(None))
+    for _ in range(rng.randrange(2, 5)):
+        r = rng.random()
+        focus = None
+        if r < 0.35:
+            focus = [rng.randrange(len(cur))]
+        elif r < 0.5 and len(cur) >= 2:
+            focus = rng.sample(range(len(cur)), 2)
+        for _ in range(rng.randrange(1, 4)):
+            r = rng.random()
+            idxs = focus if focus is not None and rng.random() < 0.8 else (
+                [0] if rng.random() < 0.4 else rng.sample(range(len(cur)), rng.randrange(1, min(3, len(cur)) + 1)))
+            if r < 0.62:
+                steps.append(_rand_route(rng, cur, idxs, stub))
+            elif r < 0.82:
+                mut = _rand_mutation(rng, cur, idxs[0])
+                if mut is not None:
+                    steps.append(mut[0])
+                    cur = mut[1]
+            else:  # one task replaced by a sibling (another object, one component changed)
+                sib = _sibling(rng, cur[idxs[0]], nmax, ising=ising)
+                if stub:
+                    sib["circuit"]["gates"] = [g for g in sib["circuit"]["gates"] if g[0] in ("X", "Y", "Z")]
+                cur = list(cur)
+                cur[idxs[0]] = sib
+        steps.append(estimation(focus))
+    case = {"kind": "history", "seed": rng.randrange(2 ** 31), "steps": steps, "share": rng.choice(["both", "both", "tasks"])}
+    if runner == "numpy":
+        case["sim"] = "numpy"
+    if stub:
+        case["runner"] = "stub"
+    if pi:
+        case["pi"] = True
+    return json.loads(json.dumps(case))  # every description its own object: a replay builds exactly the same objects
+
+
 def _rand_param(rng, syms):
     ss = rng.sample(syms, rng.randrange(0, min(3, len(syms)) + 1))
     return {"const": rat(Fraction(rng.randrange(-8, 9), 4)),
@@ -1299,6 +1612,10 @@ def generate(rng, tier):
         cases.append(_pipeline_case(rng, nmax))
     for _ in range(40 * mult):
         cases.append(_session_case(rng, nmax))
+    for _ in range(3 if big else 1):
+        cases += _targeted_histories(rng, nmax)
+    for _ in range(110 * mult):
+        cases.append(_history_case(rng, nmax))
     for _ in range(12 if big else 3):
         cases.append(_long_case(rng))
     cases += _gen_wide(rng, tier)
@@ -1318,6 +1635,17 @@ def nontrivial(c):
     k = c["kind"]
     if k == "session":
         return len(c["steps"]) >= 2 and any(nontrivial(st) or len(st["tasks"]) >= 2 for st in c["steps"])
+    if k == "history":
+        # an estimation call with at least one task that comes after another route of the runner / an in-place edit
+        seen_other = False
+        for st in c["steps"]:
+            if st["kind"] in _OTHER_STEPS and st.get("route") != "exact_direct":
+                seen_other = True
+            elif seen_other and st["tasks"]:
+                return True
+        return False
+    if k in _OTHER_STEPS:
+        return False
     kinds = {_kind(t) for t in c["tasks"]}
     if k in ("averaging", "split"):
         return {"const", "zero", "meas"} <= kinds or (len(c["tasks"]) >= 3 and "meas" in kinds and bool(c.get("share") or c.get("runner")))
@@ -1390,6 +1718,7 @@ class _Ctx:
         self.seed, self.stub = c.get("seed", 0), c.get("runner") == "stub"
         self.numpy_sim = c.get("sim") == "numpy"
         self._sim = self._rec = None
+        self.kept = []  # what the caller got back from the other routes of the simulator / runner and still holds
 
     def sim(self):
         if self._sim is None:
@@ -1415,7 +1744,9 @@ def _call(c, ctx):
     """one step: the call named by c['kind'] on c['tasks'] (made twice on the same objects if c['again'])"""
     sympy, C, EstimationTask, E, PauliSum, PauliTerm, SymbolicSimulator = _lib()
     k = c["kind"]
-    tasks = [ctx.pool.task(t) for t in c["tasks"]]
+    # fresh: equal-but-distinct objects (tasks, circuits, operators built for this call only, dropped after it)
+    pool = _Pool("none", ctx.pool.pi) if c.get("fresh") else ctx.pool
+    tasks = [pool.task(t) for t in c["tasks"]]
     objs, snap = tuple(tasks), None
     maps = msnap = mobjs = None
     if k == "bind":
@@ -1435,13 +1766,13 @@ def _call(c, ctx):
             out = {"res": [None if r is None else [_cval(v) for v in r.values] for r in res],
                    "recorded": rec.recorded, "requests": rec.requests, "runs": rec.runs_for(objs),
                    "aliased": _aliased(res)}
-            if c.get("again"):
+            if c.get("again") or c.get("scribble"):
                 _scribble(res)
             return out
         if k == "exact":
             res = E.calculate_exact_expectation_values(ctx.sim(), tasks)
             out = {"res": [[float(v) for v in r.values] for r in res], "aliased": _aliased(res)}
-            if c.get("again"):
+            if c.get("again") or c.get("scribble"):
                 _scribble(res)
             return out
         if k == "split":
@@ -1459,7 +1790,7 @@ def _call(c, ctx):
         if k == "nonmeasured":
             res = E.evaluate_non_measured_estimation_tasks(tasks)
             out = {"res": [[_cval(v) for v in r.values] for r in res], "aliased": _aliased(res)}
-            if c.get("again"):
+            if c.get("again") or c.get("scribble"):
                 _scribble(res)
             return out
         if k == "bind":
@@ -1521,14 +1852,170 @@ def _run_pipeline(c, ctx):
     return out
 
 
+# ------------------------------------------------------------------ histories: the OTHER public routes of the runner
+ROUTES_SIM = ("wf", "wf0", "wf_init", "run", "batch", "dist", "dist_exact", "exact_direct", "counters")
+ROUTES_RUNNER = ("run", "batch", "dist", "counters")
+
+
+def _init_state(init, n):
+    """the caller's initial state for get_wavefunction: |0..0> written out, another basis state, or the uniform
+    superposition; float or complex array"""
+    import numpy as np
+    dim = 2 ** n
+    dt = complex if init.get("complex") else float
+    if init["kind"] == "uniform":
+        return np.full(dim, dim ** -0.5, dtype=dt)
+    v = np.zeros(dim, dtype=dt)
+    v[0 if init["kind"] == "zero" or dim == 1 else 1 + init.get("k", 0) % (dim - 1)] = 1
+    return v
+
+
+def _edit_wavefunction(wf, how):
+    """the caller edits the Wavefunction it was given, through its public item assignment (the norm stays 1)"""
+    import numpy as np
+    amps = np.array(wf.amplitudes, dtype=complex)
+    wf[:] = amps[::-1].copy() if how == "reverse" else np.roll(amps, 1)
+
+
+def _edit_measurements(m, how):
+    """the caller edits the Measurements it was given (`bitstrings` is its public list)"""
+    if how == "clear":
+        m.bitstrings.clear()
+    elif how == "add":
+        width = len(m.bitstrings[0]) if m.bitstrings else 1
+        m.add_counts({"1" * width: 2, "0" * width: 1})
+    else:
+        m.bitstrings[:] = [tuple(1 - int(b) for b in s) for s in m.bitstrings]
+
+
+def _edit_distribution(d, how):
+    dd = d.distribution_dict
+    items = list(dd.items())
+    dd.clear()
+    if how != "clear":
+        for key, v in items:
+            dd[tuple(1 - int(b) for b in key)] = v
+
+
+def _route(step, ctx):
+    """one call of another public route of the SAME simulator / runner object the estimation calls use, on the
+    circuits (operators) of step['tasks']; afterwards the caller may edit what it got back and what it passed in"""
+    target = ctx.rec().inner
+    pool = _Pool("none", ctx.pool.pi) if step.get("fresh") else ctx.pool
+    tasks = [pool.task(t) for t in step["tasks"]]
+    r, edit, n = step["route"], step.get("edit"), step.get("n", 3)
+    out = {"route": r}
+    got = []
+    try:
+        if r in ("wf", "wf0", "wf_init"):
+            for t in tasks:
+                if r == "wf":
+                    wf = target.get_wavefunction(t.circuit)
+                else:
+                    init = _init_state(step["init"], t.circuit.n_qubits)
+                    wf = (target.get_wavefunction(t.circuit, init) if step.get("positional")
+                          else target.get_wavefunction(t.circuit, initial_state=init))
+                    if edit:
+                        init[...] = 0  # the array was the caller's
+                        init[-1] = 1
+                if edit:
+                    _edit_wavefunction(wf, edit)
+                got.append(wf)
+        elif r == "run":
+            for t in tasks:
+                m = target.run_and_measure(t.circuit, n)
+                if edit:
+                    _edit_measurements(m, edit)
+                got.append(m)
+        elif r == "batch":
+            circuits = [t.circuit for t in tasks]
+            ns = list(step["ns"]) if step.get("ns") else (n if step.get("scalar") else [n + (i % 2) for i in range(len(circuits))])
+            if step.get("as_tuple"):  # the estimation routine itself passes tuples
+                circuits, ns = tuple(circuits), (tuple(ns) if isinstance(ns, list) else ns)
+            ms = target.run_batch_and_measure(circuits, ns)
+            if edit:
+                for m in ms:
+                    _edit_measurements(m, edit)
+                if isinstance(circuits, list):
+                    circuits.clear()
+                if isinstance(ns, list):
+                    ns[:] = [7] * len(ns)
+            got.extend(ms)
+            if edit and isinstance(ms, list):
+                ms.clear()
+        elif r in ("dist", "dist_exact"):
+            for t in tasks:
+                d = target.get_measurement_outcome_distribution(t.circuit, None if r == "dist_exact" else n)
+                if edit:
+                    _edit_distribution(d, edit)
+                got.append(d)
+        elif r == "exact_direct":
+            out["values"] = [float(target.get_exact_expectation_values(circuit=t.circuit, operator=t.operator) if step.get("kw")
+                                   else target.get_exact_expectation_values(t.circuit, t.operator)) for t in tasks]
+        elif r == "counters":
+            out["counters"] = [int(target.n_jobs_executed), int(target.n_circuits_executed)]
+        else:
+            raise AssertionError("unknown route")
+    except AssertionError:
+        raise
+    except Exception as e:  # what the other routes return or raise is the subject of C04 / C14, not of this check
+        out["err"] = f"{type(e).__name__}: {e}"[:160]
+    if not step.get("drop"):
+        ctx.kept.append(got)
+    return out
+
+
+def _mutate(step, ctx):
+    """the caller edits a circuit / an operator of its tasks IN PLACE through the public attributes
+    (`term.coefficient = ...`, `circuit.operations.append / pop`); the object stays the one object of its tasks"""
+    import copy
+    C = _lib()[1]
+    PauliTerm = _lib()[5]
+    t = step["tasks"][0]
+    if step["what"] == "coef":
+        obj = ctx.pool.op(t)
+        term = obj if isinstance(obj, PauliTerm) else obj.terms[step["j"]]
+        term.coefficient = _coeff(step["c"], t.get("num", "py"))
+        new = copy.deepcopy(t)
+        new["op"][step["j"]]["c"] = list(step["c"])
+        ctx.pool.rekey(ctx.pool.ops, _op_key(t), _op_key(new))
+        took = common.canon(_canon_op(ctx.pool.op(new))) == common.canon(_canon_op(_build_op(new)))
+    else:
+        circ = ctx.pool.circuit(t["circuit"])
+        new = copy.deepcopy(t["circuit"])
+        if step["gate"] is None:
+            circ.operations.pop()
+            new["gates"].pop()
+        else:
+            circ.operations.append(getattr(C, step["gate"][0])(step["gate"][1]))
+            new["gates"].append(list(step["gate"]))
+        ctx.pool.rekey(ctx.pool.circ, common.canon(t["circuit"]), common.canon(new))
+        took = common.canon(_canon_circuit(ctx.pool.circuit(new))) == common.canon(_canon_circuit(_build_circuit(new, ctx.pool.pi)))
+    # (if the public attribute handed out a copy the edit changed nothing: then nothing after it is judged)
+    return {"mutated": step["what"] if took else None}
+
+
+_OTHER_STEPS = ("route", "mutate")
+
+
+def _run_step(step, ctx):
+    if step["kind"] == "pipeline":
+        return _run_pipeline(step, ctx)
+    if step["kind"] == "route":
+        return _route(step, ctx)
+    if step["kind"] == "mutate":
+        return _mutate(step, ctx)
+    return _call(step, ctx)
+
+
 def run_impl(c):
     k = c["kind"]
     ctx = _Ctx(c)
-    if k == "session":
+    if k in ("session", "history"):
         outs = []
         for step in c["steps"]:
             try:
-                outs.append(_call(step, ctx) if step["kind"] != "pipeline" else _run_pipeline(step, ctx))
+                outs.append(_run_step(step, ctx))
             except Exception as e:  # keep the other steps' evidence
                 outs.append({"exc": type(e).__name__, "msg": str(e)[:200]})
         return {"steps": outs}
@@ -1554,7 +2041,7 @@ def _requests_one(c, out):
 
 def _steps(c, out):
     """(sub-case, its output) pairs: the case itself, its second call, or the steps of a session"""
-    if c["kind"] == "session":
+    if c["kind"] in ("session", "history"):
         outs = out.get("steps", []) if isinstance(out, dict) else []
         pairs = []
         for step, o in zip(c["steps"], outs):
@@ -1569,13 +2056,25 @@ def _steps(c, out):
 def _modelled(c):
     if c["kind"] == "session":
         return not c.get("nomodel") and all(_modelled(st) for st in c["steps"])
+    if c["kind"] == "history":
+        return not c.get("nomodel")  # decided per step: the model answers every estimation call it knows
     return c["kind"] in ("averaging", "exact", "split", "nonmeasured", "bind") and not c.get("nomodel")
 
 
-def requests(c, out):
+def _model_pairs(c, out):
+    """the calls the model answers: every call of a modelled case; of a history, each estimation call of a modelled
+    kind (the other routes of the runner and the caller's edits have no counterpart in the model: its answer
+    depends on the task's content only, which is what the property says)"""
     if not _modelled(c):
         return []  # oracle-only case kinds
-    return [_requests_one(sub, o) for sub, o, _ in _steps(c, out)]
+    pairs = _steps(c, out)
+    if c["kind"] == "history":
+        pairs = [p for p in pairs if _modelled(p[0])]
+    return pairs
+
+
+def requests(c, out):
+    return [_requests_one(sub, o) for sub, o, _ in _model_pairs(c, out)]
 
 
 def _all_definite(c):
@@ -1609,7 +2108,7 @@ def _sampler_law(c, out):
 
 
 def compare(c, out, resp):
-    pairs = _steps(c, out)
+    pairs = _model_pairs(c, out)
     if len(pairs) != len(resp):
         return f"{len(resp)} model answers for {len(pairs)} calls"
     for (sub, o, tag), r in zip(pairs, resp):
@@ -2014,16 +2513,55 @@ def _oracle_pipeline(c, out):
     return None
 
 
+def _oracle_route(c, out):
+    """of the other routes only the simulator's own get_exact_expectation_values is the subject of this property
+    ('exact expectation values from a simulator equal the state's quadratic form with the operator')"""
+    if c["route"] != "exact_direct":
+        return None
+    for t in c["tasks"]:
+        cc = t["circuit"]
+        if not (_simulable(cc) and cc["n"] >= 1 and _op_width(t) <= cc["n"]):
+            return None
+    if "exc" in out or "err" in out:
+        return ("exact-raises", f"get_exact_expectation_values raised on a well-formed circuit and operator: {out}")
+    vals = out.get("values", [])
+    if len(vals) != len(c["tasks"]):
+        return ("exact-count", f"{len(vals)} values for {len(c['tasks'])} calls")
+    for i, (t, v) in enumerate(zip(c["tasks"], vals)):
+        want = _quadratic_form(t["op"], _np_state(t["circuit"]), t["circuit"]["n"])
+        if abs(v - want) > _exact_tol(t["op"]):
+            return ("exact-value", f"simulator.get_exact_expectation_values(circuit, operator) of task {i}: {v}, quadratic form {want}")
+    return None
+
+
 _ORACLES = {"averaging": _oracle_averaging, "exact": _oracle_exact, "split": _oracle_split,
-            "nonmeasured": _oracle_nonmeasured, "bind": _oracle_bind, "pipeline": _oracle_pipeline}
+            "nonmeasured": _oracle_nonmeasured, "bind": _oracle_bind, "pipeline": _oracle_pipeline,
+            "route": _oracle_route}
+
+
+def _step_label(st):
+    if st["kind"] == "route":
+        lab = st["route"]
+        if st["route"] in ("wf0", "wf_init"):
+            lab += "[" + st["init"]["kind"] + "]"
+        extra = [x for x in ("fresh", "edit") if st.get(x)]
+        return lab + ("(" + ",".join(f"{x}={st[x]}" for x in extra) + ")" if extra else "")
+    if st["kind"] == "mutate":
+        return "in-place:" + st["what"]
+    return (st["kind"] + ("(fresh objects)" if st.get("fresh") else "") + ("x2" if st.get("again") else "")
+            + ("(results overwritten)" if st.get("scribble") else ""))
 
 
 def oracle(c, out):
     """the property's own sentences, on the implementation's output only"""
     if not isinstance(out, dict):
         return ("no-output", "implementation produced no output")
-    if c["kind"] == "session" and "steps" not in out:
+    if c["kind"] in ("session", "history") and "steps" not in out:
         return ("session-raises", f"a sequence of calls on well-formed tasks raised: {out}")
+    if c["kind"] == "history":
+        for st, o in zip(c["steps"], out["steps"]):
+            if st["kind"] == "mutate" and not (isinstance(o, dict) and o.get("mutated")):
+                return None  # the harness could not make the in-place edit: nothing after it can be judged
     n = 0
     for sub, o, tag in _steps(c, out):
         n += 1
@@ -2034,6 +2572,11 @@ def oracle(c, out):
             where = ""
             if c["kind"] == "session":
                 where = f"call {n} of the sequence ({sub['kind']}, same runner and objects as the calls before): "
+            if c["kind"] == "history":
+                idx = next(i for i, st in enumerate(c["steps"]) if st is sub)
+                trail = " -> ".join(_step_label(st) for st in c["steps"][:idx]) or "nothing"
+                where = (f"step {idx + 1} of a history on ONE {c.get('sim') or c.get('runner') or 'symbolic'} runner object and one "
+                         f"pool of task objects ({_step_label(sub)} after: {trail}); judged on the tasks' current content: ")
             if tag:
                 where += "second identical call after the caller overwrote the first call's results: "
             return (res[0] + tag, where + res[1])
@@ -2045,8 +2588,47 @@ def distribution(cases, outs):
 
     def feat(name):
         feats[name] = feats.get(name, 0) + 1
+    hist = {"histories": 0, "runner_object": {}, "steps_per_history": {}, "estimation_calls": {}, "other_routes": {},
+            "caller_edits_of_returned_objects": {}, "initial_states": {}, "on_equal_but_distinct_objects": 0,
+            "in_place_edits_of_task_objects": {}, "in_place_edits_not_applied": 0,
+            "estimation_calls_after_another_route_or_edit": 0, "other_route_raised": 0}
+
+    def bump(d, k):
+        d[k] = d.get(k, 0) + 1
     for c, o in zip(cases, outs):
-        subs = c["steps"] if c["kind"] == "session" else [c]
+        if c["kind"] != "history":
+            continue
+        hist["histories"] += 1
+        bump(hist["runner_object"], c.get("sim") or c.get("runner") or "symbolic")
+        bump(hist["steps_per_history"], str(len(c["steps"])))
+        seen_other = False
+        for st, so in zip(c["steps"], (o or {}).get("steps", []) if isinstance(o, dict) else []):
+            if st["kind"] == "route":
+                bump(hist["other_routes"], st["route"])
+                if st.get("edit"):
+                    bump(hist["caller_edits_of_returned_objects"], st["route"] + ":" + st["edit"])
+                if "init" in st:
+                    bump(hist["initial_states"], st["init"]["kind"])
+                if isinstance(so, dict) and so.get("err"):
+                    hist["other_route_raised"] += 1
+            elif st["kind"] == "mutate":
+                bump(hist["in_place_edits_of_task_objects"], st["what"])
+                if not (isinstance(so, dict) and so.get("mutated")):
+                    hist["in_place_edits_not_applied"] += 1
+            else:
+                bump(hist["estimation_calls"], st["kind"])
+                if st.get("again") or st.get("scribble"):
+                    bump(hist["caller_edits_of_returned_objects"], st["kind"] + ":overwritten" + ("+repeated" if st.get("again") else ""))
+                if seen_other:
+                    hist["estimation_calls_after_another_route_or_edit"] += 1
+            if st.get("fresh"):
+                hist["on_equal_but_distinct_objects"] += 1
+            if st["kind"] in _OTHER_STEPS and st.get("route") != "exact_direct":
+                seen_other = True
+            elif st["kind"] == "route" and seen_other:
+                hist["estimation_calls_after_another_route_or_edit"] += 1
+    for c, o in zip(cases, outs):
+        subs = c["steps"] if c["kind"] in ("session", "history") else [c]
         if c["kind"] == "averaging":
             key = "+".join(sorted({_kind(t) for t in c["tasks"]})) or "empty"
             mix[key] = mix.get(key, 0) + 1
@@ -2058,10 +2640,10 @@ def distribution(cases, outs):
         for name in ("share", "nomodel", "runner", "mapnum"):
             if c.get(name):
                 feat(f"{name}={c[name]}")
-        if c["kind"] != "session" and any(t.get("num") for t in c["tasks"]):
+        if c["kind"] not in ("session", "history") and any(t.get("num") for t in c["tasks"]):
             feat("numpy_or_int_numbers")
         if isinstance(o, dict) and o.get("err"):
             errs[o["err"]] = errs.get(o["err"], 0) + 1
     return {"averaging_task_mixtures": mix, "task_list_lengths": {str(k): v for k, v in sorted(lens.items())},
-            "error_kinds_hit": errs, "features": feats,
+            "error_kinds_hit": errs, "features": feats, "histories_on_one_runner_object": hist,
             "sampled_circuits": sum(1 for c in cases if c["kind"] == "averaging" and not _all_definite(c))}
